@@ -1515,7 +1515,64 @@ func runScopeChain(c *Ctx, r *Reporter) {
 		}
 		q := fd.QName()
 		pos := p.Rel(fd.Decl.Pos())
-		if own == nil || rec == nil {
+		if rec == nil {
+			// the loop form: a cursor that starts at the receiver and only moves to cursor.outer; every look-up and
+			// every store uses the cursor's own table with the name parameter as key, stores lie on the found edge
+			var lk *ssa.Lookup
+			good := true
+			cursorTable := func(v ssa.Value) bool {
+				u, ok := v.(*ssa.UnOp)
+				if !ok {
+					return false
+				}
+				fa, ok := u.X.(*ssa.FieldAddr)
+				if !ok {
+					return false
+				}
+				_, f := fieldAddrInfo(fa)
+				return f == "values" && isScopeCursor(fa.X, sf, map[ssa.Value]bool{})
+			}
+			for _, b := range sf.Blocks {
+				for _, ins := range b.Instrs {
+					if x, ok := ins.(*ssa.Lookup); ok {
+						if _, isMap := x.X.Type().Underlying().(*types.Map); isMap {
+							if cursorTable(x.X) && len(sf.Params) > 1 && x.Index == ssa.Value(sf.Params[1]) {
+								lk = x
+							} else {
+								good = false
+							}
+						}
+					}
+				}
+			}
+			if lk != nil {
+				for _, st := range stores {
+					onFound := false
+					for _, blk := range sf.Blocks {
+						if len(blk.Instrs) == 0 {
+							continue
+						}
+						if ifi, ok := blk.Instrs[len(blk.Instrs)-1].(*ssa.If); ok {
+							if ex, ok := ifi.Cond.(*ssa.Extract); ok && ex.Tuple == ssa.Value(lk) && ex.Index == 1 && edgeDominates(blk, 0, st.Block()) {
+								onFound = true
+							}
+						}
+					}
+					if !onFound || !cursorTable(st.Map) || st.Key != ssa.Value(sf.Params[1]) {
+						good = false
+					}
+				}
+			}
+			r.Check(lk != nil && good, q+"#innermost-first", pos, "a cursor walks the chain outwards from this scope; its own table is consulted at every step",
+				name+" must look the name up in its own table and otherwise ask the outer scope")
+			if name == "(*scope).update" {
+				r.Check(len(stores) == 1, q+"#stores-where-found", pos, "the value is stored in the scope that has the name", fmt.Sprintf("(*scope).update has %d stores, expected exactly one (on the found edge of its look-up)", len(stores)))
+			} else {
+				r.Check(len(stores) == 0, q+"#read-only", pos, "a look-up does not write", "(*scope).get writes into a scope")
+			}
+			continue
+		}
+		if own == nil {
 			r.Viol(q+"#innermost-first", pos, name+" must look the name up in its own table and otherwise ask the outer scope")
 			continue
 		}
